@@ -591,3 +591,36 @@ def heap_default_policy(repo: Repo) -> str:
         if p.arg == "policy" and isinstance(d, ast.Constant):
             return d.value
     raise AnalysisError("Heap.__init__: default policy not found")
+
+
+def appended_results(w, per, x, value, fields=None):
+    """The results collected by `out.append(x.field)` once per query: for each component of the returned value (a list created
+    empty before the per-query loop) exactly one append, directly in that loop, under no test of its own, after every store
+    to the query node x in the same round, with argument x.<field>.  Returns the list of fields in order, or None."""
+    from .ir import facts
+    comps = [value] if value[0] == "alloc" else (list(value[1]) if value[0] == "tuple" else [])
+    out = []
+    if not comps:
+        return None
+    for c in comps:
+        if not (c[0] == "alloc" and c[1] == "list" and c[2] == ()):
+            return None
+        made = [e for e in w.events if e.kind == "call" and e.value == c]
+        apps = [e for e in w.events if e.kind == "call" and e.target is not None and e.target[0] == "attr" and e.target[1] == c]
+        if len(made) != 1 or per.lid in made[0].loops or made[0].seq > per.first_seq or len(apps) != 1:
+            return None
+        a = apps[0]
+        if a.name != "append" or a.loops != per.loops + (per.lid,) or len(a.args) != 1 \
+                or [f for f in facts(a.guards) if f not in facts(per.guards)]:
+            return None
+        v = a.args[0]
+        if not (v[0] == "attr" and v[1] == x):
+            return None
+        later = [e for e in w.events if e.kind == "store" and e.seq > a.seq and per.lid in e.loops
+                 and e.target[0] == "attr" and e.target[1] == x and e.target[2] == v[2]]
+        if later:
+            return None
+        out.append(v[2])
+    if fields is not None and out != list(fields):
+        return None
+    return out
